@@ -33,6 +33,7 @@ type TcpCase struct {
 	Random int      `json:"random"`
 	Sizes  []int    `json:"sizes"`
 	Seed   int64    `json:"seed"`
+	Duplex bool     `json:"duplex"` // wire: the reads run on a goroutine of their own, concurrently with the writes (as a channel's read loop does)
 	// boot
 	Listeners  int  `json:"listeners"`
 	Clients    int  `json:"clients"`     // channels connected through Bootstrap.Connect
@@ -117,7 +118,10 @@ func runTcpCase(c *TcpCase) *TcpResult {
 
 func runTcpWire(c *TcpCase, res *TcpResult) {
 	failed := map[string]bool{}
+	var fmu sync.Mutex
 	fail := func(key, msg string, step int) {
+		fmu.Lock()
+		defer fmu.Unlock()
 		if !failed[key] {
 			failed[key] = true
 			res.Fails = append(res.Fails, Fail{Prop: "C17", Key: key, Msg: msg, Step: step})
@@ -259,6 +263,45 @@ func runTcpWire(c *TcpCase, res *TcpResult) {
 			time.Sleep(200 * time.Microsecond)
 		}
 	}
+	// full duplex: a channel reads on its read-loop goroutine while other goroutines write. The reads of the script
+	// are taken out and run concurrently; Read and Write/Flush share nothing but the connection.
+	var rwg sync.WaitGroup
+	if c.Duplex {
+		var reads []WireOp
+		var rest []WireOp
+		for _, op := range ops {
+			if op.Op == "read" {
+				reads = append(reads, op)
+			} else {
+				rest = append(rest, op)
+			}
+		}
+		ops = rest
+		rwg.Add(1)
+		go func() {
+			defer rwg.Done()
+			pos := 0
+			for _, op := range reads {
+				if pos >= total {
+					return
+				}
+				_ = tr.SetReadDeadline(time.Now().Add(5 * time.Second))
+				p := make([]byte, op.D)
+				n, err := tr.Read(p)
+				if n == 0 && err != nil {
+					fail("read-stall", fmt.Sprintf("concurrent Read returned (0, %v) although the peer has sent %d bytes and %d were read (R=%d)", err, total, pos, c.R), -1)
+					return
+				}
+				for i := 0; i < n; i++ {
+					if pos+i >= total || p[i] != streamByte(c.Seed+7, pos+i) {
+						fail("read-bytes", fmt.Sprintf("concurrent Read returned bytes that are not the next bytes of the peer's stream (offset %d, R=%d)", pos+i, c.R), -1)
+						return
+					}
+				}
+				pos += n
+			}
+		}()
+	}
 	for step, op := range ops {
 		switch op.Op {
 		case "write":
@@ -317,6 +360,7 @@ func runTcpWire(c *TcpCase, res *TcpResult) {
 		}
 		res.Actions["tcp-"+op.Op]++
 	}
+	rwg.Wait()
 	// closing the transport ends the peer's stream with exactly the written bytes
 	if err := tr.Close(); err != nil {
 		fail("close-result", fmt.Sprintf("Close returned %v", err), len(ops))
@@ -347,12 +391,16 @@ type tcpProbe struct {
 	active   map[netty.Channel]int
 	inactive map[netty.Channel]int
 	chans    []netty.Channel
+	peers    map[string]bool // remote addresses of the channels this bootstrap served
 }
 
 func (p *tcpProbe) HandleActive(ctx netty.ActiveContext) {
 	p.mu.Lock()
 	p.active[ctx.Channel()]++
 	p.chans = append(p.chans, ctx.Channel())
+	if a := ctx.Channel().RemoteAddr(); a != "" {
+		p.peers[a] = true
+	}
 	p.mu.Unlock()
 	ctx.HandleActive()
 }
@@ -380,7 +428,7 @@ func runTcpBoot(c *TcpCase, res *TcpResult) {
 		}
 	}
 	rnd := rand.New(rand.NewSource(c.Seed))
-	probe := &tcpProbe{active: map[netty.Channel]int{}, inactive: map[netty.Channel]int{}}
+	probe := &tcpProbe{active: map[netty.Channel]int{}, inactive: map[netty.Channel]int{}, peers: map[string]bool{}}
 	init := func(ch netty.Channel) { ch.Pipeline().AddLast(probe) }
 	bs := netty.NewBootstrap(netty.WithTransport(tcp.New()), netty.WithChildInitializer(init), netty.WithClientInitializer(init))
 	var ports []int
@@ -406,19 +454,20 @@ func runTcpBoot(c *TcpCase, res *TcpResult) {
 		}()
 	}
 	if !c.LateListen {
-		for _, port := range ports {
+		// wait until our own acceptors exist (asking the listener, not the port: somebody else may be listening there)
+		for i, l := range ls {
 			ok := false
-			for k := 0; k < 200 && !ok; k++ {
-				conn, err := net.DialTimeout("tcp", fmt.Sprintf("127.0.0.1:%d", port), time.Second)
-				if err == nil {
-					_ = conn.Close()
+			for k := 0; k < 2000 && !ok; k++ {
+				if la, is := l.(interface{ Acceptor() transport.Acceptor }); is && la.Acceptor() != nil {
 					ok = true
+				} else if atomic.LoadInt32(&syncRet[i]) == 1 {
+					break // Sync gave up: the port was taken in between
 				} else {
-					time.Sleep(5 * time.Millisecond)
+					time.Sleep(time.Millisecond)
 				}
 			}
 			if !ok {
-				res.Diverged++ // port could not be bound (taken in between): not a verdict
+				res.Diverged++ // not a verdict
 				bs.Shutdown()
 				return
 			}
@@ -429,6 +478,7 @@ func runTcpBoot(c *TcpCase, res *TcpResult) {
 	var cmu sync.Mutex
 	var clientChans []netty.Channel
 	var raws []net.Conn
+	rawAt := map[net.Conn]time.Time{} // when the dial returned
 	for i := 0; i < c.Clients; i++ {
 		wg.Add(1)
 		port := ports[rnd.Intn(len(ports))]
@@ -455,6 +505,7 @@ func runTcpBoot(c *TcpCase, res *TcpResult) {
 			if err == nil {
 				cmu.Lock()
 				raws = append(raws, conn)
+				rawAt[conn] = time.Now()
 				cmu.Unlock()
 			}
 		}()
@@ -465,6 +516,7 @@ func runTcpBoot(c *TcpCase, res *TcpResult) {
 		wg.Wait()
 		time.Sleep(time.Duration(rnd.Intn(2000)) * time.Microsecond)
 	}
+	shutStart := time.Now()
 	shutDone := make(chan struct{})
 	go func() {
 		bs.Shutdown()
@@ -510,6 +562,22 @@ func runTcpBoot(c *TcpCase, res *TcpResult) {
 			}
 		}
 		for i, conn := range rr {
+			// only connections this bootstrap accepted count: the port number may belong to somebody else's listener
+			// (another process bound it between our probe and our Listen), and a connection still in our own backlog
+			// is reset by the kernel when the acceptor closes - which is asked of the acceptor below
+			probe.mu.Lock()
+			ours := probe.peers[conn.LocalAddr().String()]
+			probe.mu.Unlock()
+			// ... or connected while our own acceptor verifiably held the port (bound before the peers dialled, not
+			// yet asked to close): then it sits in our backlog and must be reset when the acceptor closes
+			cmu.Lock()
+			if at, ok := rawAt[conn]; ok && !c.LateListen && at.Before(shutStart) {
+				ours = true
+			}
+			cmu.Unlock()
+			if !ours {
+				continue
+			}
 			_ = conn.SetReadDeadline(time.Now().Add(20 * time.Millisecond))
 			var b [1]byte
 			_, err := conn.Read(b[:])
